@@ -1,9 +1,9 @@
 (* Line-protocol driver around the extracted Gallina model (PV.Model.RawParser / RawReader).
    stdin : one case per line (decimal numbers; selmask as in native/rawdrv.cc)
              <chk 0|1> <selmask> <n> w0 ... w(n-1)                                   read_bes_raw_gen on a word buffer
-             A <chk> <n_blocks> <per_batch> <selmask> <k> o1 .. ok <n> w0 .. w(n-1)   arrays_gen on the words of a file;
-                                                                                     o1..ok = completion order of the tasks
-             C <chk> <per_batch> <selmask> <nfiles> <n1> w.. <n2> w.. ...             concatenate_gen
+             A <chk> <lfix> <n_blocks> <per_batch> <selmask> <k> o1 .. ok <n> w0 .. w(n-1)   arrays_gen on the words of a
+                                                  file; lfix = batch-loop variant; o1..ok = completion order of the tasks
+             C <chk> <lfix> <per_batch> <selmask> <nfiles> <n1> w.. <n2> w.. ...             concatenate_gen
    stdout: one line per case   OK <json> | THROW <name> [arg] | OOB <kind> <index> | RTHROW <name> [args] | FUEL *)
 open Rawmodel
 let rec pos_of_int n = if n = 1 then XH else if n land 1 = 0 then XO (pos_of_int (n lsr 1)) else XI (pos_of_int (n lsr 1))
@@ -43,18 +43,18 @@ let () =
     if String.length line > 0 then begin
       let toks = List.filter (fun s -> s <> "") (String.split_on_char ' ' line) in
       match toks with
-      | "A" :: c :: nb :: pb :: m :: k :: rest ->
+      | "A" :: c :: lf :: nb :: pb :: m :: k :: rest ->
         let (ord, rest) = take (int_of_string k) rest in
         let order = List.map (fun s -> nat_of_int (int_of_string s)) ord in
         let fw = List.map (fun s -> z_of_int (int_of_string s)) (List.tl rest) in
-        print_rres (arrays_gen (c = "1") (reader_fuel fw) fw (z_of_int (int_of_string nb)) (z_of_int (int_of_string pb))
+        print_rres (arrays_gen (c = "1") (lf = "1") (reader_fuel fw) fw (z_of_int (int_of_string nb)) (z_of_int (int_of_string pb))
                       (names_of_mask (int_of_string m)) (fun _ -> order))
-      | "C" :: c :: pb :: m :: nf :: rest ->
+      | "C" :: c :: lf :: pb :: m :: nf :: rest ->
         let rec files k rest = if k = 0 then [] else
           match rest with
           | n :: tl -> let (ws, tl') = take (int_of_string n) tl in List.map (fun s -> z_of_int (int_of_string s)) ws :: files (k - 1) tl'
           | [] -> [] in
-        print_rres (concatenate_gen (c = "1") (files (int_of_string nf) rest) (z_of_int (int_of_string pb)) (names_of_mask (int_of_string m)))
+        print_rres (concatenate_gen (c = "1") (lf = "1") (files (int_of_string nf) rest) (z_of_int (int_of_string pb)) (names_of_mask (int_of_string m)))
       | c :: m :: _n :: ws ->
         let buf = List.map (fun s -> z_of_int (int_of_string s)) ws in
         let r = read_bes_raw_gen (c = "1") (fuel_for buf) (names_of_mask (int_of_string m)) buf in
